@@ -141,6 +141,11 @@ func TestExpiryBounds(t *testing.T) {
 							case 2:
 								_ = cache.WithTTL(ctx, ctxTTL, true)
 							case 3:
+								if ctxTTL < 0 { // a negative update lowers a positive cell: "the minimal non-zero value is kept"
+									ctx = cache.WithTTL(context.Background(), time.Hour, false)
+									_ = cache.WithTTL(ctx, ctxTTL, true)
+								}
+
 								if ctxTTL > 0 && ctxTTL < 100*365*24*time.Hour {
 									ctx = cache.WithTTL(context.Background(), ctxTTL+time.Hour, false)
 									_ = cache.WithTTL(ctx, ctxTTL, true)
